@@ -283,9 +283,10 @@ class Ctx:
         with open(path, "w") as f:
             json.dump(body, f, indent=1)
         self.violations.append({"replay": path, "record": bad})
-        log("  unmatched record: %s" % json.dumps(bad)[:600])
-        if prev is not None:
-            log("  last matched    : %s" % json.dumps(prev)[:600])
+        if len(self.violations) <= 2:
+            log("  unmatched record: %s" % json.dumps(bad)[:500])
+            if prev is not None:
+                log("  last matched    : %s" % json.dumps(prev)[:500])
         log("VIOLATION property=%s replay=%s" % (self.pid, path))
 
     def direct_violation(self, what, case, replay_meta):
